@@ -146,7 +146,7 @@ class TurnEnv:
         return NS(turn_id=turn, agent_id=agent, now=now, now_ms=now_ms, cfg=self.cfg, config=self.cfg, **extra)
 
     def run(self, agent="A", text="hello", turn=1, now_ms: Optional[int] = NOW_MS, now="auto", plan: Any = None,
-            vclock: Optional[VClock] = None, ctx_extra: Optional[dict] = None, fingerprint: bool = False, ctx_obj: Any = None) -> dict:
+            vclock: Optional[VClock] = None, ctx_extra: Optional[dict] = None, fingerprint: bool = False, ctx_obj: Any = None, via_driver: bool = False) -> dict:
         """plan: None (real planner), a dict spec for mk_plan, or a callable (ctx,state,bundle)->Plan.
         ctx_obj: reuse a ctx object of an earlier turn (callers may keep one ctx and advance turn_id / now on it)."""
         import clematis.engine.orchestrator as orch
@@ -170,7 +170,13 @@ class TurnEnv:
                 cm.enter_context(patched(orch, "t3_deliberate", fn))
             cm.enter_context(virtual_time(vclock))
             try:
-                r = Orchestrator().run_turn(ctx, self.state, text)
+                if via_driver:
+                    # the same turn handed to the agent batch driver as a batch of one
+                    import clematis.engine.orchestrator.parallel as _P
+                    rs = _P._run_agents_parallel_batch(ctx, self.state, [(agent, text)])
+                    r = rs[0] if rs else NS(line=None)
+                else:
+                    r = Orchestrator().run_turn(ctx, self.state, text)
                 out["line"] = r.line
             except Exception as ex:  # recorded; the caller decides what it means
                 import traceback
